@@ -85,10 +85,36 @@ pub fn fen_parse_event(text: &str) -> Value {
             let t2 = r.as_fen();
             ev["res"] = json!({"ok": true, "pos": raw_json(&r), "text2": text_json(&t2), "pos2": parsed_raw(&t2)});
         }
-        Ok(Err(_)) => ev["res"] = json!({"ok": false}),
+        Ok(Err(e)) => ev["res"] = json!({"ok": false, "err": fen_err_class(&e)}),
         Err(()) => ev["res"] = json!({"ok": false, "panic": true}),
     }
     ev
+}
+
+/// The variant of a FEN parse error, as a short tag (the vocabulary of Notation!ImplFenRead).
+pub fn fen_err_class(e: &owlchess::board::RawFenParseError) -> &'static str {
+    use owlchess::board::{CellsParseError as C, RawFenParseError as E};
+    match e {
+        E::NonAscii => "NonAscii",
+        E::NoBoard => "NoBoard",
+        E::Board(C::RankOverflow(_)) => "Board.RankOverflow",
+        E::Board(C::RankUnderflow(_)) => "Board.RankUnderflow",
+        E::Board(C::Overflow) => "Board.Overflow",
+        E::Board(C::Underflow) => "Board.Underflow",
+        E::Board(C::UnexpectedChar(_)) => "Board.UnexpectedChar",
+        E::NoMoveSide => "NoMoveSide",
+        E::MoveSide(_) => "MoveSide",
+        E::NoCastling => "NoCastling",
+        E::Castling(_) => "Castling",
+        E::NoEnpassant => "NoEnpassant",
+        E::Enpassant(_) => "Enpassant",
+        E::InvalidEnpassantRank(_) => "InvalidEnpassantRank",
+        E::MoveCounter(_) => "MoveCounter",
+        E::MoveNumber(_) => "MoveNumber",
+        E::ExtraData => "ExtraData",
+        #[allow(unreachable_patterns)]
+        _ => "Other",
+    }
 }
 
 /// Arbitrary UNVALIDATED raw board whose e.p. mark (if any) is on the rank appropriate to the side to move.
